@@ -227,6 +227,13 @@ func (d *distinctEngine) dedupConstructOnPath(f *ssa.Function, v ssa.Value, dept
 				if guardedByLookup(y.Block()) {
 					found = true
 				}
+				// appended once per entry of a map (the element is built from the key, or from
+				// the keys of nested maps): a set stands behind the list
+				for _, mr := range findMapRanges(f) {
+					if mr.blocks()[y.Block()] {
+						found = true
+					}
+				}
 				walk(y.Call.Args[0], dd+1)
 				elems, spread := appendedElems(y)
 				if spread != nil {
@@ -1628,6 +1635,22 @@ func ruleNoSkip(w *World, r *Report, fn string) {
 				}
 			case *ssa.Lookup:
 				lk = y
+			}
+			// a pure membership test: the stored value is not looked at (or there is none to
+			// look at); a map whose values steer the decision is state, not a seen-set
+			if lk != nil && lk.CommaOk {
+				if mt, ok := lk.X.Type().Underlying().(*types.Map); ok {
+					pure := false
+					switch et := mt.Elem().Underlying().(type) {
+					case *types.Struct:
+						pure = et.NumFields() == 0
+					case *types.Basic:
+						pure = et.Kind() == types.Bool
+					}
+					if e0 := extractOf(lk, 0); !pure && e0 != nil && hasRealReferrer(e0) {
+						lk = nil
+					}
+				}
 			}
 			if lk != nil {
 				// only when the duplicate is the element this very loop level handles:
